@@ -36,6 +36,7 @@ type planCase struct {
 	ExecCmp  string `json:"exec_cmp,omitempty"` // "", "equal", or a description of the difference
 	Oracle   string `json:"oracle,omitempty"`   // direct-oracle failure (property violated on the real code), "" = none
 	RefOK    bool   `json:"ref_ok"`             // the reference engine accepts the query
+	NativeExec string `json:"native_exec,omitempty"`
 }
 
 func argFor(t parser.ValueType, variant int) string {
@@ -158,6 +159,8 @@ func c08Positions(q string, t parser.ValueType) []string {
 			q+" + foo", "foo + "+q, q+" + 1", "1 + "+q, q+" > bool foo", "foo == on (a) group_left "+q,
 			"-("+q+")", "("+q+")", "rate(("+q+")[5m:1m])", "sum(("+q+") * 2)", "abs(-("+q+"))",
 			"("+q+") and foo", "sort("+q+")",
+			// in the parameter of an aggregation
+			"quantile(scalar("+q+"), foo)", "topk(scalar("+q+"), foo)", "bottomk by (a) (scalar("+q+"), foo)",
 		)
 	case parser.ValueTypeScalar:
 		out = append(out,
@@ -172,6 +175,7 @@ func c08Positions(q string, t parser.ValueType) []string {
 			"rate("+q+")", "sum(rate("+q+"))", "max_over_time("+q+")", "quantile_over_time(0.5, "+q+")",
 			"predict_linear("+q+", 1)", "abs(delta("+q+"))", "rate("+q+") + 1", "foo / increase("+q+")",
 			"absent_over_time("+q+")", "-irate("+q+")",
+			"quantile(scalar(sum(rate("+q+"))), foo)",
 		)
 	case parser.ValueTypeString:
 		out = append(out, "label_replace(foo, \"a\", "+q+", \"b\", \"\")", "count_values("+q+", foo)")
@@ -317,6 +321,28 @@ func cmdPlan(args []string) {
 						execCompared++
 					}
 				}
+				// A natively accepted query must not discover at Exec that a construct is unsupported, nor
+				// fail where the reference engine answers: support is decided at creation.
+				if pc.Outcome == "Native" && fb {
+					a := canonResult(q.Exec(context.Background()))
+					if a.Kind == "error" {
+						var rq promql.Query
+						var rerr error
+						if rng {
+							rq, rerr = ref.NewRangeQuery(store, nil, qs, start, end, step)
+						} else {
+							rq, rerr = ref.NewInstantQuery(store, nil, qs, end)
+						}
+						if rerr == nil {
+							b := canonResult(rq.Exec(context.Background()))
+							rq.Close()
+							if b.Kind != "error" {
+								pc.NativeExec = "natively accepted query fails at Exec (" + trunc(a.ErrMsg, 160) + ") where the reference engine answers"
+							}
+						}
+					}
+					execCompared++
+				}
 				if q != nil {
 					q.Close()
 				}
@@ -347,6 +373,8 @@ func cmdPlan(args []string) {
 						pc.Oracle = fmt.Sprintf("fallback query: counter deltas false=%d true=%d", pc.DFalse, pc.DTrue)
 					case pc.ExecCmp != "" && pc.ExecCmp != "equal" && !tieSensitive(qs):
 						pc.Oracle = "fallback result differs from the reference engine: " + pc.ExecCmp
+					case pc.NativeExec != "":
+						pc.Oracle = pc.NativeExec
 					}
 					if k == 1 && pc.Oracle == "" && (obs[0].Outcome == "Native") != (pc.Outcome == "Native") {
 						pc.Oracle = "native path depends on the fallback switch: on=" + obs[0].Outcome + " off=" + pc.Outcome
